@@ -14,19 +14,21 @@ import (
 
 // idxEngine enumerates panic-capable instructions and discharges them (DESIGN.md 2.2).
 type idxEngine struct {
-	c        *Ctx
-	eff      *Effects
-	provers  map[*ssa.Function]*prover
-	tis      map[*ssa.Function]*termIndex
-	fieldLB  map[*types.Var]*fieldLBState
-	resLB    map[*ssa.Function]*resLBState
-	mono     map[*types.Var]*bool
-	requires map[*ssa.Function][]*requireClause
-	invOK    map[*types.Var]bool
-	fills    map[*ssa.Function]fillSummary
-	nondec   map[*types.Var]bool
-	immut    map[*types.Var]bool
-	Obls     []*idxOb
+	c          *Ctx
+	eff        *Effects
+	provers    map[*ssa.Function]*prover
+	tis        map[*ssa.Function]*termIndex
+	fieldLB    map[*types.Var]*fieldLBState
+	resLB      map[*ssa.Function]*resLBState
+	mono       map[*types.Var]*bool
+	requires   map[*ssa.Function][]*requireClause
+	invOK      map[*types.Var]bool
+	fills      map[*ssa.Function]fillSummary
+	reflPanics *reflEval // the reflective-fill evaluation of Decoration.Populate (panic verdicts of its helpers)
+	reflTried  bool
+	nondec     map[*types.Var]bool
+	immut      map[*types.Var]bool
+	Obls       []*idxOb
 }
 
 type fieldLBState struct {
